@@ -208,16 +208,8 @@ func innerKeys(args, sfx string) []string {
 }
 
 func validIdent(n string) bool {
-	if n == "" || n == "_" || token.IsKeyword(n) || types.Universe.Lookup(n) != nil {
-		return false
-	}
-	for i, c := range n {
-		letter := c == '_' || (c >= 'a' && c <= 'z') || (c >= 'A' && c <= 'Z')
-		if !(letter || (i > 0 && c >= '0' && c <= '9')) {
-			return false
-		}
-	}
-	return true
+	// letters are Unicode letters: a prefix may start with a non-ASCII (upper-case) letter
+	return n != "_" && token.IsIdentifier(n) && types.Universe.Lookup(n) == nil
 }
 
 // render gives the user file for a prefix map, or an error text when this package cannot be
